@@ -6,7 +6,7 @@
    front-end fills with references and the visitor never visits). *)
 From Coq Require Import List String Bool.
 From Cog Require Import Model.IR Model.Passes Model.Filter Model.Process Model.Refs Model.Spec05
-     Proofs.PassLemmas Proofs.C05Proofs Model.PassesChain Model.NF Gen.Chains_gen Proofs.ChainPresProofs Proofs.ChainRefsProofs.
+     Proofs.PassLemmas Proofs.C05Proofs Model.PassesChain Model.NF Gen.Chains_gen Proofs.ChainPresProofs Proofs.ChainPhpJavaProofs Proofs.ChainRefsProofs Proofs.ChainRefsProofs2.
 Import ListNotations.
 
 Definition hidden_free_ss (ss : schemas) : Prop :=
@@ -160,3 +160,46 @@ Theorem chain_passes_breaking_resolution :
   (resolves w_flatten_orphan = true /\ exists out, flatten_disjunctions w_flatten_orphan = Ok out /\ dangling out = [("<mapping>", "Foo")]).
 Proof. exact chain_passes_that_break_resolution. Qed.
 Print Assumptions chain_passes_breaking_resolution.
+
+(* ---- last round: the Go chain unconditionally, mappings through every chain, and the two last passes ---- *)
+Theorem go_chain_keeps_references_resolving_unconditional : forall ss out,
+  wf_refs_input ss -> refs_ok ss -> entries_ok ss -> process chain_go ss = Ok out ->
+  wf_refs_input out /\ refs_ok out /\ entries_ok out.
+Proof. exact go_chain_keeps_references_general. Qed.
+Print Assumptions go_chain_keeps_references_resolving_unconditional.
+Theorem go_chain_keeps_resolving_full : forall ss out,
+  wf_refs_input ss -> no_mappings ss = true -> resolves ss = true -> process chain_go ss = Ok out -> resolves out = true.
+Proof. exact go_chain_keeps_resolving. Qed.
+Print Assumptions go_chain_keeps_resolving_full.
+Theorem java_core_chain_keeps_resolving_full : forall ss out,
+  wf_refs_input ss -> no_mappings ss = true -> resolves ss = true -> process (removelast chain_java) ss = Ok out -> resolves out = true.
+Proof. exact java_core_chain_keeps_resolving. Qed.
+Print Assumptions java_core_chain_keeps_resolving_full.
+Theorem php_core_chain_keeps_resolving_full : forall ss out,
+  wf_refs_input ss -> no_mappings ss = true -> resolves ss = true -> process (removelast chain_php) ss = Ok out -> resolves out = true.
+Proof. exact php_core_chain_keeps_resolving. Qed.
+Print Assumptions php_core_chain_keeps_resolving_full.
+(* RemoveIntersections keeps references resolving when, after its first loop, no reference and no entry point names
+   an object it removes (ri_refs_safe; sufficient, decidable, computed by the pass's own bookkeeping) *)
+Theorem remove_intersections_keeps_references : forall ss out,
+  refs_ok ss -> entries_ok ss -> ri_safe ss = true -> ri_refs_safe ss = true ->
+  remove_intersections ss = Ok out -> map s_pkg out = map s_pkg ss /\ refs_ok out /\ entries_ok out.
+Proof. exact remove_intersections_keeps. Qed.
+Print Assumptions remove_intersections_keeps_references.
+Theorem java_chain_keeps_resolving_full : forall ss out,
+  wf_refs_input ss -> tame_java_refs ss = true -> no_mappings ss = true -> resolves ss = true ->
+  process chain_java ss = Ok out -> resolves out = true.
+Proof. exact java_chain_keeps_resolving. Qed.
+Print Assumptions java_chain_keeps_resolving_full.
+(* InlineObjectsWithTypes, order-independent case: inlined types contain no reference to an inlined object, no
+   unvisited reference site or entry point names one (iowt_refs_safe, computed from the pass's own collection) *)
+Theorem inline_objects_with_types_keeps_references : forall kinds ss out,
+  wfk ss -> refs_ok ss -> entries_ok ss -> iowt_refs_safe kinds ss = true ->
+  inline_objects_with_types kinds ss = Ok out -> map s_pkg out = map s_pkg ss /\ refs_ok out /\ entries_ok out.
+Proof. exact inline_objects_keeps. Qed.
+Print Assumptions inline_objects_with_types_keeps_references.
+Theorem php_chain_keeps_references_resolving : forall ss out,
+  wf_refs_input ss -> tame_php_refs ss = true -> refs_ok ss -> entries_ok ss -> process chain_php ss = Ok out ->
+  refs_ok out /\ entries_ok out.
+Proof. exact php_chain_keeps_references. Qed.
+Print Assumptions php_chain_keeps_references_resolving.
